@@ -318,15 +318,23 @@ def shell_flavours(ctx, pexpect, pxssh_mod, n):
             if state['lines'].count('secret') != 1:
                 ctx.hit('C17/flavour-login', 'the password was sent %d times' % state['lines'].count('secret'), {'flavour': flavour, 'lines': state['lines']})
                 return
-            for k in range(rng.randint(1, 3)):
-                word = rng.choice(['hello', 'a b c', '$HOME #1', '[PEXPECT', 'x' * 300])
-                p.sendline('echo ' + word)
-                r = p.prompt(timeout=5)
-                want = ('echo %s\r\n%s\r\n' % (word, word)).encode('latin-1')
-                if r is not True or p.before != want:
-                    ctx.hit('C17/flavour-prompt', '%s shell, after login(): command %d `echo %s`: prompt() returned %r with before=%r, the echo and the output are %r'
-                            % (flavour, k + 1, word[:20], r, p.before[:80], want[:80]), {'flavour': flavour, 'lines': state['lines']})
-                    return
+            k = 0
+            for burst in range(rng.randint(1, 3)):
+                # the user may type ahead: several commands are sent before the first prompt() call, and their echoes, outputs
+                # and prompts may all arrive in ONE read; each prompt() call still delimits exactly one command
+                words = [rng.choice(['hello', 'a b c', '$HOME #1', '[PEXPECT', 'x' * 300, 'y' * rng.randint(60, 120)]) for _ in range(rng.choice([1, 1, 2, 3]))]
+                for word in words:
+                    p.sendline('echo ' + word)
+                if rng.random() < 0.5:
+                    queue[:] = [b''.join(queue)]
+                for word in words:
+                    k += 1
+                    r = p.prompt(timeout=5)
+                    want = ('echo %s\r\n%s\r\n' % (word, word)).encode('latin-1')
+                    if r is not True or p.before != want:
+                        ctx.hit('C17/flavour-prompt', '%s shell, after login(): command %d `echo %s` (%d commands sent ahead): prompt() returned %r with before=%r, the echo and the output are %r'
+                                % (flavour, k, word[:20], len(words), r, p.before[:80], want[:80]), {'flavour': flavour, 'lines': state['lines']})
+                        return
     finally:
         pxssh_mod.spawn._spawn = real_spawn
     ctx.oracle_stats['shell_flavour_sessions'] = tried
